@@ -341,7 +341,9 @@ func TestC03(t *testing.T) {
 		if lastTop.Kind != gen.KOp {
 			bad := rapid.SampledFrom([]string{"${#x:-y}", "${#x%y}", "${#x=y}", "${#x+y}", "${#x?}", "${#1-}", `"${#x:-y}"`, "a${#x#y}b", "${#x:=}", "${#foo##*}",
 				// a backquote is not the ")" of a case pattern, of "f()" or of a subshell
-				"`case x in a` b;; esac`", "`f(` { a; }`", "`(a` b", "x`case y in (a|b` c;; esac`"}).Draw(rt, "badword")
+				"`case x in a` b;; esac`", "`f(` { a; }`", "`(a` b", "x`case y in (a|b` c;; esac`",
+				// a here-document whose substitution ends on the line of the operator has no body
+				"$(cat <<E)", "`cat <<-E`", "$( (cat <<E) )", "x$(a; cat <<E)y", "\"$(cat <<'E')\"", "$(cat <<A <<B)", "${x:-$(cat <<E)}"}).Draw(rt, "badword")
 			src := base + " " + bad + "\n"
 			starts := append([]int{}, r.Starts...)
 			for o := len(base) + 1; o < len(src); o++ {
